@@ -23,6 +23,8 @@
 //!                              the native DOM under a root `<div>`, hydrated with A, rebuilt with B;
 //!                              twin: A built and mounted into another root, rebuilt with B.
 //!   mis <views A> <views C>    A hydrated against the DOM of C's SSR string (error paths of the walk)
+//!   frag <tag> <pre> <itemsA> <itemsB> <post>   (`-` = none) `<tag>` with children `pre…, Fragment(itemsA),
+//!                              post…` (`Fragment` = `StaticVec<AnyView>`), hydrated, rebuilt with itemsB; twin
 //!
 //! Output of `hyd`:
 //!   html=<hex> io=<0|1> ooo=<0|1> tree=<enc> hyd=<outcome> created=<n> after=<enc> csr=<enc> ## <verdict>
@@ -50,6 +52,7 @@ use tachys::hydration::Cursor;
 use tachys::renderer::native_dom as nd;
 use tachys::view::add_attr::AddAnyAttr;
 use tachys::view::any_view::{AnyView, IntoAny};
+use tachys::view::fragment::Fragment;
 use tachys::view::{Mountable, PositionState, Render, RenderHtml};
 
 const MAX_KIDS: usize = 6;
@@ -353,6 +356,17 @@ macro_rules! by_tag {
     };
 }
 
+fn elem_any(tag: &str, attrs: Vec<AnyAttribute>, kids: Vec<AnyView>) -> Option<AnyView> {
+    if kids.len() > MAX_KIDS {
+        return Option::None;
+    }
+    by_tag!(tag, attrs, kids;
+        [div, span, section, article, main, header, footer, aside, nav, blockquote, figure, label,
+         b, i, em, strong, small, code, p, a, h1, h2, h3, button,
+         title, textarea, script, style, noscript];
+        [area, base, br, col, embed, hr, img, input, link, meta, source, track, wbr])
+}
+
 fn any(v: &V) -> Option<AnyView> {
     Some(match v {
         V::Text(s) => s.clone().into_any(),
@@ -360,11 +374,7 @@ fn any(v: &V) -> Option<AnyView> {
         V::Elem { tag, attrs, kids } => {
             let attrs: Vec<AnyAttribute> = attrs.iter().map(build_attr).collect();
             let kids: Vec<AnyView> = kids.iter().map(any).collect::<Option<_>>()?;
-            by_tag!(tag.as_str(), attrs, kids;
-                [div, span, section, article, main, header, footer, aside, nav, blockquote, figure, label,
-                 b, i, em, strong, small, code, p, a, h1, h2, h3, button,
-                 title, textarea, script, style, noscript];
-                [area, base, br, col, embed, hr, img, input, link, meta, source, track, wbr])?
+            elem_any(tag.as_str(), attrs, kids)?
         }
         V::Tuple(ks) => {
             let ks: Vec<AnyView> = ks.iter().map(any).collect::<Option<_>>()?;
@@ -578,6 +588,87 @@ fn op_hyd(a: &[V], b: &[V]) -> String {
     )
 }
 
+/// `<tag>` with children `pre…, Fragment(items), post…` (the `Fragment` is one `AnyView` child)
+fn frag_view(tag: &str, pre: &[V], items: &[V], post: &[V]) -> Option<AnyView> {
+    let mut kids: Vec<AnyView> = pre.iter().map(any).collect::<Option<_>>()?;
+    let f = Fragment::new(items.iter().map(any).collect::<Option<Vec<AnyView>>>()?);
+    kids.push(AnyView::from(f));
+    for v in post {
+        kids.push(any(v)?);
+    }
+    elem_any(tag, vec![], kids)
+}
+
+fn op_frag(tag: &str, pre: &[V], ia: &[V], ib: &[V], post: &[V]) -> String {
+    let mk = |items: &[V]| frag_view(tag, pre, items, post);
+    let (Some(va), Some(va2), Some(va3), Some(vb), Some(vb2)) = (mk(ia), mk(ia), mk(ia), mk(ib), mk(ib)) else {
+        return "bad-op".into();
+    };
+    let Ok(html_s) = catch_unwind(AssertUnwindSafe(|| va.to_html())) else {
+        return "ssr-panic ## fail ssr-panic".into();
+    };
+    let head = format!("html={}", if html_s.is_empty() { "-".into() } else { hx(&html_s) });
+    let Some(tree) = html::parse(&html_s) else {
+        return format!("{head} tree=none ## fail parse-none");
+    };
+    nd::reset();
+    let root = nd::create_root("div");
+    for t in &tree {
+        load(&root, t);
+    }
+    let before = nd::nodes_created();
+    let (outcome, st) = hydrate_outcome(va2, &root);
+    let created = nd::nodes_created() - before;
+    let Some(mut st) = st else {
+        return format!("{head} tree={} hyd={outcome} created={created} ## fail hydration-error", enc_trees(&tree));
+    };
+    let r1 = catch_unwind(AssertUnwindSafe(|| vb.rebuild(&mut st)));
+    let after = dump_kids(&root);
+    let root2 = nd::create_root("div");
+    let r2 = catch_unwind(AssertUnwindSafe(|| {
+        let mut st2 = va3.build();
+        st2.mount(&root2, Option::None);
+        vb2.rebuild(&mut st2);
+        st2
+    }));
+    let csr = dump_kids(&root2);
+    let dom_errs = nd::take_errors();
+    let panicked = r1.is_err() || r2.is_err();
+    let verdict = if panicked {
+        "fail rebuild-panic".to_string()
+    } else if !dom_errs.is_empty() {
+        "fail dom-error".to_string()
+    } else if created != 0 {
+        "fail nodes-created".to_string()
+    } else if strip(&after) != strip(&csr) {
+        "fail differs-from-csr".to_string()
+    } else {
+        "ok".to_string()
+    };
+    format!(
+        "{head} tree={} hyd={outcome} created={created} panic={} after={} csr={} ## {verdict}",
+        enc_trees(&tree),
+        panicked as u8,
+        enc_trees(&after),
+        enc_trees(&csr)
+    )
+}
+
+fn decode_seq(w: &str) -> Option<Vec<V>> {
+    if w == "-" {
+        return Some(vec![]);
+    }
+    D { s: w.as_bytes(), i: 0 }.seq(0)
+}
+
+fn enc_seq(vs: &[V]) -> String {
+    if vs.is_empty() {
+        "-".into()
+    } else {
+        encode(vs)
+    }
+}
+
 fn op_mis(a: &[V], c: &[V]) -> String {
     let (Some(va), Some(vc)) = (top(a), top(c)) else { return "bad-op".into() };
     let Ok(html_s) = catch_unwind(AssertUnwindSafe(|| vc.to_html())) else {
@@ -606,6 +697,16 @@ fn op(line: &str, tags: &std::collections::HashMap<String, String>) -> String {
         },
         ["hyd", a, b] => match (decode(a), decode(b)) {
             (Some(a), Some(b)) => op_hyd(&a, &b),
+            _ => "bad-op".into(),
+        },
+        ["frag", tag, p, ia, ib, q] => match (decode_seq(p), decode_seq(ia), decode_seq(ib), decode_seq(q)) {
+            (Some(p), Some(ia), Some(ib), Some(q))
+                if p.len() + ia.len() + q.len() <= 5
+                    && !tag.is_empty()
+                    && tag.bytes().all(|b| b.is_ascii_lowercase() || b.is_ascii_digit() || b == b'-') =>
+            {
+                op_frag(tag, &p, &ia, &ib, &q)
+            }
             _ => "bad-op".into(),
         },
         ["mis", a, c] => match (decode(a), decode(c)) {
@@ -764,6 +865,27 @@ fn tags_of_op(w: &[&str]) -> String {
         }
         ["mis", ..] => {
             t.insert("mismatch".into());
+        }
+        ["frag", _, p, ia, ib, q] => {
+            t.insert("fragment".into());
+            if *p == "-" {
+                t.insert(if *ia == "-" { "frag-first-empty" } else { "frag-first" }.into());
+            }
+            if *q != "-" {
+                t.insert("frag-then-sibling".into());
+            }
+            if let (Some(a), Some(b)) = (decode_seq(ia), decode_seq(ib)) {
+                t.insert(
+                    if a.len() < b.len() {
+                        if a.is_empty() { "frag-fill" } else { "frag-grow" }
+                    } else if a.len() > b.len() {
+                        "frag-shrink"
+                    } else {
+                        "frag-same-len"
+                    }
+                    .into(),
+                );
+            }
         }
         _ => {}
     }
@@ -1056,11 +1178,38 @@ fn gen(seed: u64, n: usize, path: &str) -> std::io::Result<()> {
     for (name, a, b) in small_scope() {
         writeln!(f, "case {name}\nhyd {} {}", encode(&a), encode(&b))?;
     }
+    // Fragment (StaticVec): empty / non-empty, first / after a sibling, followed by a sibling or not
+    let sp = |s: &str| e("span", vec![t(s)]);
+    for (i, (pre, ia, ib, post)) in [
+        (vec![], vec![], vec![sp("x"), sp("y")], vec![sp("tail")]),
+        (vec![], vec![], vec![sp("x")], vec![]),
+        (vec![], vec![sp("a")], vec![sp("b")], vec![sp("tail")]),
+        (vec![sp("head")], vec![], vec![sp("x")], vec![]),
+        (vec![t("head")], vec![t("a"), t("")], vec![], vec![t("tail")]),
+        (vec![], vec![], vec![], vec![]),
+    ]
+    .into_iter()
+    .enumerate()
+    {
+        writeln!(f, "case ss-frag{i}\nfrag div {} {} {} {}", enc_seq(&pre), enc_seq(&ia), enc_seq(&ib), enc_seq(&post))?;
+    }
     for i in 0..n {
         writeln!(f, "case {i}")?;
         let mut anc: Vec<&'static str> = vec![];
         let depth = r.range(1, 4);
         let a = gen_seq(&mut r, depth, &mut anc, 1, 3);
+        if r.chance(1, 14) {
+            // an element whose children are pre.., Fragment(items), post..
+            let tag = *r.pick(&["div", "span", "section", "my-box"]);
+            let mut anc2: Vec<&'static str> = vec![tag];
+            let d2 = depth.min(2);
+            let pre = if r.chance(1, 2) { vec![] } else { gen_seq(&mut r, d2, &mut anc2, 1, 1) };
+            let ia = gen_seq(&mut r, d2, &mut anc2, 0, 2);
+            let ib = gen_seq(&mut r, d2, &mut anc2, 0, 2);
+            let post = if r.chance(1, 2) { vec![] } else { gen_seq(&mut r, d2, &mut anc2, 1, 2) };
+            writeln!(f, "frag {tag} {} {} {} {}", enc_seq(&pre), enc_seq(&ia), enc_seq(&ib), enc_seq(&post))?;
+            continue;
+        }
         if r.chance(1, 12) {
             // mismatching DOM: the walk's error paths
             let c = if r.chance(1, 2) {
